@@ -244,6 +244,7 @@ def run(ctx: RuleContext, p: Program) -> None:
     from . import descsem as _ds
     ctx.try_rule(_ds.rule_desc_sem, p, 'DESC-SEM')
     ctx.try_rule(_ds.rule_field_sem, p, 'FIELD-SEM')
+    ctx.try_rule(_ds.rule_rep_edge, p, 'REP-EDGE')
     ctx.not_decided += ['full separator arithmetic for every (index, arity, position)', 'store block boundaries (C07)',
                         'identity of tokens outside the edit window (runtime)']
     ctx.assumptions += ['TokenStore.insert_after/insert_before/remove/splice semantics (C07)']
